@@ -593,6 +593,9 @@ func (c *Ctx) boundsOK(b *ssa.BasicBlock, x, idx ssa.Value, slack int64, pc *cor
 	if dnf == nil {
 		return true, "unreachable block"
 	}
+	if fnOf := b.Parent(); fnOf != nil && c.lenFacts().indexParamInRange(fnOf, x, idx, b, pc) {
+		return true, "at every call site the index is a loop index over a slice of the same length (or -1, excluded here)"
+	}
 	minLen, exactLens := knownLen(x)
 	if tl := c.textMinLen(x); tl > minLen {
 		minLen = tl
